@@ -552,6 +552,9 @@ func newAlphabet(c *vf.Ctx) *alphabet {
 			}
 		}
 	}
+	// empty entries are "entries without commas" too; only the one-element list [""] is left
+	// out: it has the same encoding as the empty list, so it cannot round-trip by construction
+	a.lists = append(a.lists, []string{"", "a"}, []string{"a", ""}, []string{"", "", "a"}, []string{"a", "", "none"}, []string{"", ""}, []string{"", "a", ""})
 	return a
 }
 
